@@ -31,6 +31,26 @@ pub fn extra(ctx: &Ctx) -> usize {
     }
 }
 
+thread_local! {
+    static PER_KIND: std::cell::RefCell<std::collections::HashMap<String, usize>> = Default::default();
+}
+
+/// `oracle_fail` with at most three witnesses per kind of failure (the rest is only counted):
+/// one broken formula fails on hundreds of operand pairs, three replays are enough.
+pub fn fail(ctx: &mut Ctx, key: &str, what: &str, detail: serde_json::Value) {
+    let n = PER_KIND.with(|m| {
+        let mut m = m.borrow_mut();
+        let e = m.entry(what.to_string()).or_insert(0);
+        *e += 1;
+        *e
+    });
+    if n <= 3 {
+        ctx.oracle_fail(key, what, detail);
+    } else {
+        ctx.count(&format!("more-failures:{what}"));
+    }
+}
+
 /// `oracle_fail`, once per key (defect classes have one stable key; the first witness is kept).
 pub fn fail_once(ctx: &mut Ctx, key: &str, what: &str, detail: serde_json::Value) {
     let fresh = REPORTED.with(|r| r.borrow_mut().insert(key.to_string()));
